@@ -1,6 +1,6 @@
 (* Props/C02.v — Deletes touch only files agentpack itself recorded as managed.
    Statements only; proofs in Proofs/DeployP.v. *)
-From AP Require Import Base.Str Gen.Tables Model.Deploy Proofs.DeployP Proofs.ConvergeP Proofs.RollbackP.
+From AP Require Import Base.Str Gen.Tables Model.Deploy Proofs.DeployP Proofs.ConvergeP Proofs.RollbackP Proofs.ManifestKeepP.
 Open Scope N_scope.
 
 (* a delete is planned only for a path in the managed set that is absent from the desired state
@@ -65,6 +65,23 @@ Theorem C02_deploy_removes_only_recorded :
             In (Build_change t PDelete p (files w p) None) pl.
 Proof. exact deploy_removes_only_recorded. Qed.
 Print Assumptions C02_deploy_removes_only_recorded.
+
+(* the theorem above leaves out the per-target manifests of the run's own roots; for those and for every other
+   manifest-named file (legacy-named, of another target, of another tool, unreadable): an apply never removes one,
+   and one that is not the per-target manifest of a root of this run is byte-identical afterwards *)
+Theorem C02_manifests_never_deleted : forall w roots D flt p,
+  wfD roots D -> wfM D (managed_for_plan w roots flt) ->
+  is_manifest_path p = true -> files w p <> None ->
+  files (apply_plan KDeploy w roots D (plan (files w) D (managed_for_plan w roots flt))) p <> None.
+Proof. exact manifests_never_deleted. Qed.
+Print Assumptions C02_manifests_never_deleted.
+
+Theorem C02_foreign_manifests_untouched : forall w roots D flt p,
+  wfD roots D -> wfM D (managed_for_plan w roots flt) ->
+  is_manifest_path p = true -> (forall r, In r roots -> mf_path r <> p) ->
+  files (apply_plan KDeploy w roots D (plan (files w) D (managed_for_plan w roots flt))) p = files w p.
+Proof. exact foreign_manifests_untouched. Qed.
+Print Assumptions C02_foreign_manifests_untouched.
 
 (* non-vacuity: a world with a hostile manifest (.. entry, absolute entry) next to a valid entry *)
 Example C02_nonvacuous :
